@@ -7,7 +7,8 @@ LEVEL = "proof"
 def check(run):
     n = 24 if run.tier == "quick" else 400
     ops = 350 if run.tier == "quick" else 2500
-    kvcommon.drive(run, "map", n, ops, boundary=(60 if run.tier == "quick" else 2000))
+    kvcommon.drive(run, "map", n, ops, boundary=(60 if run.tier == "quick" else 2000),
+                   thin=(16 if run.tier == "quick" else 300))
     return run.finish(level=LEVEL, rule=kvcommon.RULE, assumptions=kvcommon.ASSUME)
 
 def replay(run, path):
